@@ -183,6 +183,12 @@ pub fn run_case(ctx: &mut CaseCtx) -> CaseResult {
         for r in [&ra, &rb, &rc, &rd] {
             r.take();
         }
+        // the facade's enabled() query for this record (asked first; what it writes to the error
+        // channel about unknown names is set aside)
+        let enabled_answer = {
+            let meta = log::Metadata::builder().level(lvl).target(&target).build();
+            boxed.enabled(&meta)
+        };
         let _ = flw::take_error_channel();
         if lvl <= max {
             spec::with_rec(lvl, &target, Some(&module), &msg, |rec| boxed.log(rec));
@@ -205,9 +211,13 @@ pub fn run_case(ctx: &mut CaseCtx) -> CaseResult {
         // ------------------------------------------------------------ expectations
         let named = |x: &str| brace && list.contains(&x);
         let gate = lvl <= max;
+        let delivered_anywhere = std::cell::Cell::new(false);
         let facts = if brace { "brace" } else { "plain" };
         for (name, r) in [("A", &ra), ("B", &rb), ("C", &rc)] {
             let got = r.take();
+            if !got.is_empty() {
+                delivered_anywhere.set(true);
+            }
             let want = usize::from(named(name) && gate);
             let ok = got.len() == want && got.iter().all(|g| g.msg == msg && g.level == lvl);
             if !ok {
@@ -221,6 +231,7 @@ pub fn run_case(ctx: &mut CaseCtx) -> CaseResult {
                 );
             }
         }
+        let mut delivered_somewhere = false;
         let want_default = gate
             && if brace {
                 named("_Default") && model.enabled(lvl, &module)
@@ -228,6 +239,29 @@ pub fn run_case(ctx: &mut CaseCtx) -> CaseResult {
                 model.enabled(lvl, &target)
             };
         let got_d = rd.take();
+        if !got_d.is_empty() {
+            delivered_somewhere = true;
+        }
+        if delivered_anywhere.get() {
+            delivered_somewhere = true;
+        }
+        if named("F") && gate && lvl <= file_ceiling {
+            delivered_somewhere = true;
+        }
+        if with_syslog && named("S") && gate && lvl <= syslog_ceiling {
+            delivered_somewhere = true;
+        }
+        res.count("enabled_queries_checked", 1);
+        if delivered_somewhere && !enabled_answer {
+            res.violate(
+                "enabled-false-for-written-record",
+                format!("C13/enabled-false-for-written-record/{facts}"),
+                format!(
+                    "record {i} target {target:?} module {module:?} level {lvl}: enabled() answered false, but the record was written (spec {:?}, file ceiling {file_ceiling}, syslog ceiling {syslog_ceiling})",
+                    model.entries
+                ),
+            );
+        }
         if got_d.len() != usize::from(want_default) {
             res.violate(
                 "default-channel",
